@@ -78,7 +78,8 @@ type Upstream struct {
 
 	closedNotified sync.Once // the closed event is delivered once, whichever close path gets there first
 
-	writeMu sync.RWMutex // held (shared) from the state check of a write to its hand-over; Close changes the state under it
+	writeMu    sync.RWMutex  // held (shared) from the state check of a write to its hand-over; Close waits for these writes
+	drainingCh chan struct{} // closed when Close begins: releases writes parked in the hand-over
 
 	sent   sentStorage
 	logger log.Logger
@@ -144,12 +145,15 @@ func (u *Upstream) stateWithoutLock() *UpstreamState {
 func (u *Upstream) Close(ctx context.Context, opts ...UpstreamCloseOption) error {
 	// writers that have passed their state check hand their points over before the state changes,
 	// later ones see the new state: no write is accepted after Close has flushed
-	u.writeMu.Lock()
 	beforeStatus := u.state.Swap(streamStatusDraining)
-	u.writeMu.Unlock()
 	if beforeStatus == streamStatusDraining {
 		return errors.Errorf("already draining: %w", errors.ErrStreamClosed)
 	}
+	// a write parked in the hand-over (nobody takes it while the connection is down) is released,
+	// so that the wait for the writers below does not outlast this call's context
+	close(u.drainingCh)
+	u.writeMu.Lock()
+	u.writeMu.Unlock()
 	// also while the stream is resuming: the resume goes on and what is still unacknowledged is retransmitted
 	// before the close request (the wait is bounded by ctx and the close timeout)
 	if err := u.waitToSendAllDataPointsAndReceiveAllAck(ctx, beforeStatus == streamStatusResuming); err != nil {
@@ -316,6 +320,8 @@ func (u *Upstream) WriteDataPoints(ctx context.Context, dataID *message.DataID, 
 		return errors.ErrStreamClosed
 	case <-ctx.Done():
 		return ctx.Err()
+	case <-u.drainingCh:
+		return errors.New("draining")
 	case u.dpgCh <- &DataPointGroup{
 		DataID:     dataID,
 		DataPoints: dps,
